@@ -68,6 +68,7 @@ static int orc_x86_microarchitecture;
  *   vendor(ecx of leaf 0):max basic leaf:leaf1 ecx:leaf1 edx:leaf7 ebx:
  *   max extended leaf:leaf 0x80000001 ecx:leaf 0x80000001 edx:xcr0
  * Leaves above the respective maximum answer zeros. */
+#include <signal.h>
 #include <stdio.h>
 #include <stdlib.h>
 static int
@@ -378,7 +379,12 @@ orc_verif_xgetbv (unsigned int index)
 {
   unsigned int w[9];
 
-  if (orc_verif_cpuid_words (w)) return w[8];
+  if (orc_verif_cpuid_words (w)) {
+    /* on the simulated machine, as on a real one, xgetbv is an undefined
+     * instruction unless the OS has enabled XSAVE (CPUID.1:ECX.OSXSAVE) */
+    if (w[1] < 1 || !(w[2] & (1U << 27))) raise (SIGILL);
+    return w[8];
+  }
   return _xgetbv (index);
 }
 #undef _xgetbv
